@@ -21,7 +21,11 @@ EXPLANATION = (
     "cylindrical <-> spherical conversion has no table entry and falls through to an unconditional raise ValueError; T4 "
     "ScalarField.__call__ / VectorField.__call__ refuse each (point class, system kind) mismatch before calling the field "
     "function (complete 3-entry table, dominance); T5 Vector.rebase and ScalarField.rebase substitute all three base scalars, "
-    "in opposite directions; T6 the scale factors and orientation used as reference by C12 follow from the same table "
+    "in opposite directions - decided by evaluating both methods abstractly up to the hand-over to sympy.vector.express: the "
+    "value handed over is the table with every base scalar replaced AT ONCE by the matching component (0 for a missing one), resp. "
+    "the field expression with the old scalars expressed in the new ones; T7/T8 _subs_with_point of both field classes, evaluated "
+    "abstractly for points with 0..3 coordinates, replaces every base scalar by the point's coordinate (0 for a missing one), at once - "
+    "also for the point (q1, q2, q0) written in the system's own base scalars; T6 the scale factors and orientation used as reference by C12 follow from the same table "
     "(h_i^2 = sum_j (dx_j/dq_i)^2, det J = s h1 h2 h3). What sympy.vector.express does afterwards, and singular points, are not decided.")
 ASSUMPTIONS = ["library convention for the angle names as documented in coordinate_systems.py", "radial coordinates non-negative",
                "sympy.vector.express is trusted"]
